@@ -1173,18 +1173,31 @@ func runList(c *Case) string {
 	panic("unknown list kind " + c.Kind)
 }
 
+// seriesDecoded: what storedLabels (the decoder Series uses since the repair) makes of every stored text:
+// c.Order[i] = "1" (listed) / "0" (skipped), c.Blbls = the decoded label sets of the listed ones, sorted by name
+func seriesDecoded(c *Case) {
+	c.Order, c.Blbls, c.Batches = nil, nil, nil
+	for _, it := range c.Items {
+		m, err := service.VerifC15StoredLabels(hx.UnHex(it))
+		if err != nil {
+			c.Order = append(c.Order, "0")
+			continue
+		}
+		c.Order = append(c.Order, "1")
+		ls := sortedLbls(m)
+		if ls == nil {
+			ls = [][2]string{}
+		}
+		c.Blbls = append(c.Blbls, ls)
+		c.Batches = append(c.Batches, []Entry{})
+	}
+}
+
 // goList: parse the body with encoding/json and compare with the items
 func goList(c *Case, body string) string {
 	var items []string
 	for _, it := range c.Items {
 		items = append(items, hx.UnHex(it))
-	}
-	if c.Kind == "series" { // the property does not speak about stored texts that are not JSON values
-		for _, it := range items {
-			if !json.Valid([]byte(it)) {
-				return "skip:stored document is not JSON"
-			}
-		}
 	}
 	var got []interface{}
 	switch c.Kind {
@@ -1210,13 +1223,6 @@ func goList(c *Case, body string) string {
 			Data   []interface{} `json:"data"`
 		}
 		if err := json.Unmarshal([]byte(body), &v); err != nil {
-			if c.Kind == "series" {
-				for _, it := range items {
-					if !json.Valid([]byte(it)) {
-						return "skip:stored document is not JSON"
-					}
-				}
-			}
 			return "diff:decode: " + err.Error()
 		}
 		if v.Status != "success" {
@@ -1224,22 +1230,41 @@ func goList(c *Case, body string) string {
 		}
 		got = v.Data
 	}
+	if c.Kind == "series" {
+		// every stored text that is a JSON object of strings must be listed, with its labels (Go-side reading
+		// of the stored text: a generic map); the others (strconv.Quote escapes, garbage) may be listed or skipped
+		k := 0
+		for i, it := range items {
+			var want map[string]string
+			isObj := json.Unmarshal([]byte(it), &want) == nil && want != nil
+			listed := i < len(c.Order) && c.Order[i] == "1"
+			if isObj && !listed {
+				return fmt.Sprintf("diff:stored document %d is JSON but was not listed", i)
+			}
+			if !listed {
+				continue
+			}
+			if k >= len(got) {
+				return fmt.Sprintf("diff:%d elements, document %d missing", len(got), i)
+			}
+			if isObj {
+				a, _ := json.Marshal(want)
+				b, _ := json.Marshal(got[k])
+				if string(a) != string(b) {
+					return fmt.Sprintf("diff:element %d", k)
+				}
+			}
+			k++
+		}
+		if k != len(got) {
+			return fmt.Sprintf("diff:%d elements, want %d", len(got), k)
+		}
+		return "ok"
+	}
 	if len(got) != len(items) {
 		return fmt.Sprintf("diff:%d elements, want %d", len(got), len(items))
 	}
 	for i, it := range items {
-		if c.Kind == "series" {
-			var want interface{}
-			if err := json.Unmarshal([]byte(it), &want); err != nil {
-				return "skip:stored document is not JSON"
-			}
-			a, _ := json.Marshal(want)
-			b, _ := json.Marshal(got[i])
-			if string(a) != string(b) {
-				return fmt.Sprintf("diff:element %d", i)
-			}
-			continue
-		}
 		s, ok := got[i].(string)
 		if !ok || s != strings.ToValidUTF8(it, "\uFFFD") && utf8.ValidString(it) {
 			return fmt.Sprintf("diff:element %d", i)
@@ -1606,6 +1631,9 @@ func run(c *Case) {
 	}
 	if listKinds[c.Kind] {
 		var body string
+		if c.Kind == "series" {
+			seriesDecoded(c)
+		}
 		c.Panic = hx.Catch(func() { body = runList(c) })
 		c.Out = hx.Hex(body)
 		c.GoValid = json.Valid([]byte(body))
